@@ -860,6 +860,7 @@ func (e *Exec) Run() {
 		}
 		e.assumeTypeWF(st, v, p.Type())
 		fr.params[p.Name()] = v
+		fr.params[fmt.Sprintf("param%d", i)] = v // positional alias: survives a renamed parameter
 		fr.env[p] = v
 	}
 	for _, fv := range e.fn.FreeVars {
